@@ -139,7 +139,9 @@ class Gen:
     def blocks(self, n):
         out = []
         for _ in range(n):
-            if self.profile in ('full', 'c12') and self.r.random() < .15: out.append(self.table())
+            if self.profile in ('full', 'c12') and self.r.random() < .04:      # a 1x1 table without text (rendered as nothing: its separator is taken back)
+                out.append({'t': 'tbl', 'tok': 0, 'rows': [[{'tok': 0, 'span': 1, 'vm': None, 'blocks': []}]]}); self.features.add('textless_table')
+            elif self.profile in ('full', 'c12') and self.r.random() < .15: out.append(self.table())
             else: out.append(self.para())
         return out
     def doc(self, nparas=None):
